@@ -46,6 +46,14 @@ def gen_cases(rng, tier):
     for d in range(1, 6):                               # a leading power written as two terms with different parameters
         cases.append({"expr": f"a*x**{d} - b*x**{d} + a*x**{d - 1}", "var": "x", "deg": d, "powers": [d - 1, d]})
         cases.append({"expr": f"(a - b)*x**{d} + (b - a)", "var": "x", "deg": d, "powers": [0, d]})
+    # highest powers that cancel BETWEEN summands written as unexpanded products / powers
+    for d in range(1, 5):
+        cases.append({"expr": f"(x + a)**{d + 1} - x**{d + 1}", "var": "x", "deg": d, "powers": [d, d + 1]})
+        cases.append({"expr": f"x**{d}*(x + b) - x**{d + 1} + a", "var": "x", "deg": d, "powers": [0, d, d + 1]})
+    cases += [{"expr": "x*(x + 1) - x**2 + 3", "var": "x", "deg": 1, "powers": [0, 1, 2]},
+              {"expr": "(x**2 + 1)**3 - x**6 + b", "var": "x", "deg": 4, "powers": [0, 2, 4, 6]},
+              {"expr": "a - x*(x + 2) + (x + 1)**2", "var": "x", "deg": 0, "powers": [0, 1, 2]},
+              {"expr": "a*x - x**3/2 - 3*x**2/2 + (x + 1)**3/2", "var": "x", "deg": 1, "powers": [0, 1, 2, 3]}]
     for c in ("5", "a", "a*b + 2", "7/2"):              # constants in x
         cases.append({"expr": c, "var": "x", "deg": 0, "powers": [0]})
     return cases
